@@ -268,10 +268,11 @@ theorem C14_zero_underscore_rejected :
   ⟨by rfl, by rfl⟩
 
 set_option maxRecDepth 20000 in
-/-- OBSERVATION F-C14-3 (witness): inside the numeric byte-list form only numeric characters and `_` are accepted, so an
-entry in a radix above 10 with a letter digit is rejected (`''016_ff''`) although `016_ff` alone is 255 -/
-theorem C14_bytelist_letter_digit_rejected :
-    parseByteList pf ['\'', '\'', '0', '1', '6', '_', 'f', 'f', '\'', '\''] = .err .data ∧
+/-- was defect F-C14-3 (repaired by fix commit f762fcf in /repo): inside the numeric byte-list form only numeric
+characters and `_` were accepted, so an entry in a radix above 10 with a letter digit was rejected (`''016_ff''`) although
+`016_ff` alone is 255. Now the entry denotes the byte it spells. -/
+theorem C14_bytelist_letter_digit_accepted :
+    parseByteList pf ['\'', '\'', '0', '1', '6', '_', 'f', 'f', '\'', '\''] = .ok [255] ∧
     parseSimpleNumber pf ['0', '1', '6', '_', 'f', 'f'] = .ok (.int 255) := ⟨by rfl, by rfl⟩
 
 /-! ### non-vacuity and the previously defective inputs -/
